@@ -33,7 +33,7 @@ FLOORS = {
     'quick': {'schedules': 300, 'distinct_interleavings': 100, 'both_parked_mid_evaluation': 100,
               'points': 3000, 'fresh_thread_ops': 22, 'stress_rounds': 8, 'pair:iter+iter': 20,
               'pair:iter+cse': 20, 'pair:cse+iter': 20, 'pair:cse+cse': 20, 'pair:plain+iter': 10,
-              'pair:cse+plain': 10},
+              'pair:cse+plain': 10, 'pair:offset+offset': 5, 'pair:iter+offset': 5},
     'thorough': {'schedules': 8000, 'distinct_interleavings': 3000, 'fresh_thread_ops': 22,
                  'stress_rounds': 60, 'pair:cse+cse': 50, 'pair:plain+iter': 50, 'pair:iter+iter': 50,
                  'pair:cse+iter': 50, 'pair:iter+cse': 50},
@@ -84,15 +84,32 @@ def wl_plain(seed):
     return {'name': 'plain', 'spec': spec, 'calls': [('evaluate', a, {}) for a in list(meta['formulas'])[:3]]}
 
 
+def wl_offset(seed):
+    """computed references: library functions given an address resolve it through their workbook's evaluator.
+    Both workbooks of a pair use the same sheet name and addresses, with different values."""
+    k = 1 + seed % 7
+    cells = {'A1': 1 * k, 'A2': 2 * k, 'A3': 3 * k, 'A4': 4 * k, 'B1': 1,
+             'C1': '=INDEX(OFFSET(A1,B1,0,3,1),2)', 'D1': '=ABS(OFFSET(A1,B1,0))+C1',
+             'E1': '=ROUND(ABS(OFFSET(A1,B1,0))/4,0)+D1'}
+    spec = {'sheets': [['Data Sheet', cells]], 'names': {}, 'arrays': [], 'calc': None}
+    return {'name': 'offset', 'spec': spec,
+            'calls': [('evaluate', 'Data Sheet!E1', {}), ('set_value', 'Data Sheet!B1', {'value': 0}),
+                      ('evaluate', 'Data Sheet!E1', {}), ('evaluate', 'Data Sheet!C1', {})]}
+
+
 def workloads(seed):
-    return [wl_iter(seed, 3, 1e-9), wl_iter(seed + 1, 200, 1e-6), wl_cse(1), wl_cse(3), wl_plain(seed)]
+    return [wl_iter(seed, 3, 1e-9), wl_iter(seed + 1, 200, 1e-6), wl_cse(1), wl_cse(3), wl_plain(seed),
+            wl_offset(seed)]
 
 
 def run_workload(wl, comp=None):
     comp = comp or wb.compile_mem(wl['spec'])
     out = []
     for op, target, kw in wl['calls']:
-        out.append(wb.outcome(getattr(comp, op), target, **kw))
+        if op == 'set_value':
+            out.append(wb.outcome(comp.set_value, target, kw['value']))
+        else:
+            out.append(wb.outcome(getattr(comp, op), target, **kw))
     return out
 
 
@@ -285,7 +302,7 @@ def same_results(a, b):
 
 def one_schedule(ctx, ia, ib, seed, plan, points, warm, refs):
     ws = workloads(seed)
-    wa, wb_ = ws[ia], ws[ib]
+    wa, wb_ = ws[ia], workloads(seed + 3)[ib] if ib == len(ws) - 1 else ws[ib]
     case = {'kind': 'schedule', 'a': ia, 'b': ib, 'seed': seed, 'plan': [list(p) for p in plan],
             'points': list(points), 'warm': warm}
     box, passes, sched = scheduled(wa, wb_, plan, points, warm)
@@ -300,7 +317,8 @@ def one_schedule(ctx, ia, ib, seed, plan, points, warm, refs):
     ctx.case(('sched', ia, ib, sig), nontrivial=bool(sched.parked_mid))
     ctx.count(f'pair:{wa["name"].split("(")[0]}+{wb_["name"].split("(")[0]}')
     for name, idx in (('A', ia), ('B', ib)):
-        ref_out, ref_passes, _ = refs[(idx, bool(warm.get(name)))]
+        rkey = 'B-offset' if (name == 'B' and ib == len(ws) - 1) else idx
+        ref_out, ref_passes, _ = refs[(rkey, bool(warm.get(name)))]
         got = box[name]
         if got[0] == 'x' and ref_out[0] == 'v':
             ctx.violation(f'raises-under-interleaving/{ws[idx]["name"].split("(")[0]}',
@@ -325,9 +343,13 @@ def one_schedule(ctx, ia, ib, seed, plan, points, warm, refs):
 
 def references(seed):
     refs = {}
-    for i, wl in enumerate(workloads(seed)):
+    ws = workloads(seed)
+    for i, wl in enumerate(ws):
         for warm in (False, True):
             refs[(i, warm)] = solo(wl, warm)
+    # thread B runs the computed-reference workload on a workbook with other values
+    for warm in (False, True):
+        refs[('B-offset', warm)] = solo(workloads(seed + 3)[len(ws) - 1], warm)
     return refs
 
 
@@ -337,12 +359,13 @@ def schedules(ctx):
     refs = references(seed)
     for (i, warm), (out, passes, counts) in refs.items():
         if out[0] != 'v' or any(o[0] == 'x' for o in out[1]):
-            wl = workloads(seed)[i]
+            wl = workloads(seed)[i if isinstance(i, int) else -1]
             ctx.violation(f'solo-run-on-a-fresh-thread-raises/{wl["name"].split("(")[0]}',
                           f'{wl["name"]} alone on a {"warmed-up" if warm else "fresh"} thread: {out!r}',
                           {'kind': 'solo', 'i': i, 'seed': seed, 'warm': warm})
             return
-    pairs = [(a, b) for a in range(5) for b in range(5)]
+    nw = len(workloads(seed))
+    pairs = [(a, b) for a in range(nw) for b in range(nw)]
     seen = set()
     n = 0
     full = not ctx.quick
@@ -400,7 +423,10 @@ def fresh_ops(ctx):
             spec = dict(spec, calc={'iterate': True, 'count': 50, 'delta': 1e-6})
             target, inp = info['cells'][0], None
         else:
-            spec = {'sheets': [['Sheet1', {'A1': 2, 'A2': 3, 'B1': '=A1+A2', 'B2': '=SUM(A1:A2)*B1'}]],
+            # (ROUND/TEXT/CEILING on exact ties: their decimal arithmetic must not depend on the thread)
+            spec = {'sheets': [['Sheet1', {'A1': 2, 'A2': 3, 'B1': '=A1+A2',
+                                           'B2': '=SUM(A1:A2)*B1+ROUND(A1+0.5,0)+ROUND(A2/24,2)+CEILING(0.3,0.1)'
+                                                 '+LEN(TEXT(A1+0.5,"0"))+ROUND(25,-1)'}]],
                     'names': {}, 'arrays': [], 'calc': None}
             target, inp = 'Sheet1!B2', 'Sheet1!A1'
         ref = wb.outcome(wb.compile_mem(spec).evaluate, target)
